@@ -133,10 +133,10 @@ Example results_extended_example :
 Proof. reflexivity. Qed.
 
 (* the copy loop of the interpreter trampoline for a stack-passed block (gen_blk_mov), emitted only for
-   blocks of at least one eightbyte (fixes/C05-6.patch), copies exactly the eightbytes 0..qwords-1 of
+   blocks of at least one eightbyte (fixes/C05-6.patch; the guard is read off the checked tree: gen_blk_mov_guarded), copies exactly the eightbytes 0..qwords-1 of
    the block -- nothing for an empty block; without the guard an empty block copies index -1, i.e.
    overwrites the preceding stack argument (replayed by ./check C05: `i64 x7, blk:0` via interp) *)
-Theorem block_copy_loop_exact : forall q, 0 <= q -> ff_blk_copy true q = Some (zrange (Z.to_nat q)).
+Theorem block_copy_loop_exact : forall q, 0 <= q -> ff_blk_copy gen_blk_mov_guarded q = Some (zrange (Z.to_nat q)).
 Proof. exact ff_blk_copy_exact. Qed.
 Print Assumptions block_copy_loop_exact.
 
